@@ -499,6 +499,9 @@ def ini_file_ok(case):
 
 
 _main_cache = {}
+PLUGIN_VCMD = None          # set by main_classes(): what `[COMMAND] vcmd = optlib:PLUGIN_VCMD` loads
+PLUGIN_BACKEND = None
+BACKEND_CLASS = {'dbm': 'DbmDB', 'json': 'JsonDB', 'sqlite3': 'SqliteDB', 'vmem': 'VBackend'}
 
 
 def main_classes():
@@ -524,7 +527,18 @@ def main_classes():
             return DoitCmdBase.execute(self, params, args)
 
         def _execute(self, pos_args):
+            box['backend_seen'] = type(self.dep_manager.backend).__name__
             return 0
+
+    from doit.dependency import JsonDB
+
+    class VBackend(JsonDB):
+        """a DB backend that exists only as a plugin (`[BACKEND] vmem = optlib:PLUGIN_BACKEND`)"""
+        desc = 'verification probe backend'
+
+    global PLUGIN_VCMD, PLUGIN_BACKEND
+    PLUGIN_VCMD = VCmd
+    PLUGIN_BACKEND = VBackend
 
     class Main(DoitMain):
         def get_cmds(self):
@@ -624,8 +638,15 @@ def impl_main(case, workdir):
         for f in os.listdir(workdir):
             os.remove(os.path.join(workdir, f))
         kw = {'config_filenames': ()}
+        plug = bool(case.get('plugins'))
+        if plug:
+            # the probe command and a DB backend are registered as PLUGINS, in the same config source as the options
+            from doit.doit_cmd import DoitMain as Main      # noqa: F811  (no get_cmds override)
+        box.pop('backend_seen', None)
         if case['ini_mode'] == 'file':
             with open('doit.cfg', 'w') as f:
+                if plug:
+                    f.write('[COMMAND]\nvcmd = optlib:PLUGIN_VCMD\n[BACKEND]\nvmem = optlib:PLUGIN_BACKEND\n')
                 if case['glob']:
                     f.write('[GLOBAL]\n' + ''.join('%s = %s\n' % (k, c['raw']) for k, c in case['glob']))
                 f.write('[vcmd]\n' + ''.join('%s = %s\n' % (k, c['raw']) for k, c in case['ini']))
@@ -640,12 +661,18 @@ def impl_main(case, workdir):
                 return json.dumps(v)
             with open('pyproject.toml', 'w') as f:
                 f.write('[tool.doit]\n' + ''.join('%s = %s\n' % (k, tv(c)) for k, c in case['glob']))
+                if plug:
+                    f.write('[tool.doit.plugins.command]\nvcmd = "optlib:PLUGIN_VCMD"\n'
+                            '[tool.doit.plugins.backend]\nvmem = "optlib:PLUGIN_BACKEND"\n')
                 f.write('[tool.doit.commands.vcmd]\n' + ''.join('%s = %s\n' % (k, tv(c)) for k, c in case['ini']))
             kw = {'config_filenames': ('pyproject.toml',)}
         else:
             extra = {'vcmd': cfg_py(case['ini'])}
             if case['glob'] or case['ini_mode'] == 'mixed':
                 extra['GLOBAL'] = cfg_py(case['glob'])
+            if plug:
+                extra['COMMAND'] = {'vcmd': 'optlib:PLUGIN_VCMD'}
+                extra['BACKEND'] = {'vmem': 'optlib:PLUGIN_BACKEND'}
             kw['extra_config'] = extra
         extra_before = None
         if case['ini_mode'] == 'mixed':
@@ -664,6 +691,10 @@ def impl_main(case, workdir):
                     pass
                 del box['seen'][:]
                 box['setup'] = []
+                box.pop('backend_seen', None)
+                for f in os.listdir('.'):
+                    if f.startswith('.doit.db'):      # the state file is not this property's subject (another backend may follow)
+                        os.remove(f)
                 err.seek(0)
                 err.truncate()
                 if case['ini_mode'] == 'mixed':
@@ -687,6 +718,8 @@ def impl_main(case, workdir):
     if code == 0 and box['seen']:
         params, args = box['seen'][0]
         out = {'res': params_obs(names, params, args), 'exit': code}
+        if plug:
+            out['backend_seen'] = box.get('backend_seen')
         if mutated:
             out['extra_config_mutated'] = mutated
         if lspec is not None and box['setup']:
@@ -775,6 +808,36 @@ def impl_runtask(case, workdir):
             kw = {'config_filenames': ('pyproject.toml',)}
         elif case['ini'] or case.get('cfg_not_none'):
             kw['extra_config'] = {'task:t': cfg_py(case['ini'])}
+        if case.get('api'):
+            # doit.api.run_tasks: no command line at all; task_opts[t] becomes t.cfg_values (typed values, not parsed),
+            # task_opts[t][pos_arg] becomes pos_arg_val as it is.  Called twice with the same dict object.
+            import copy
+            from doit.api import run_tasks
+            opts = cfg_py(case['task_opts'])
+            if case.get('pos_arg') and case.get('api_pos_given'):
+                opts['posv'] = list(case['pos'])
+            tasks = {'t': opts}
+            before = copy.deepcopy(tasks)
+            outs = []
+            with environ(case['env']), contextlib.redirect_stderr(err), contextlib.redirect_stdout(out):
+                for _ in range(2):
+                    rec.clear()
+                    rec['order'] = []
+                    try:
+                        run_tasks(ModuleTaskLoader(dict(ns)), tasks, extra_config=kw.get('extra_config'))
+                        if 't' in rec:
+                            opts_seen, posv = rec['t']
+                            r = params_obs(names, opts_seen, list(posv) if case.get('pos_arg') else rec['order'][1:])
+                            r['ok']['nd'] = None
+                        else:
+                            r = {'err': 'crash', 'exc': 'task t did not run: ' + err.getvalue().strip().split('\n')[-1][:60]}
+                    except BaseException as ex:  # noqa
+                        r = exc_obs(ex)
+                    outs.append(r)
+            res = {'res': outs[0], 'res2': outs[1]}
+            if tasks != before:
+                res['task_opts_mutated'] = {'before': canon_val(repr(before)), 'after': canon_val(repr(tasks))}
+            return res
         with environ(case['env']), contextlib.redirect_stderr(err), contextlib.redirect_stdout(out):
             try:
                 code = DoitMain(task_loader=ModuleTaskLoader(ns), **kw).run(['t'] + list(case['argv']))
@@ -817,3 +880,132 @@ def impl_creator(case):
                                    'nd': None, 'pos': None}}}
         except Exception as ex:  # noqa
             return {'res': exc_obs(ex)}
+
+
+# ------------------------------------------------------------------------------------------ the real `run` command
+
+RUN_POOL = {'always': [True, False], 'continue': [True, False], 'single': [True, False], 'verbosity': [0, 1, 2],
+            'num_process': [0, 1, 2], 'par_type': ['thread', 'process']}
+_run_spec_cache = {}
+
+
+def run_spec():
+    """option table of the real `doit run` with a ModuleTaskLoader (introspected)"""
+    from doit.cmd_run import Run
+    from doit.cmd_base import ModuleTaskLoader
+    from doit.plugin import PluginDict
+    key = id(Run)
+    if key not in _run_spec_cache:
+        opts = Run(task_loader=ModuleTaskLoader({}), config={}, cmds=PluginDict()).get_options()
+        for o in opts:
+            if isinstance(canon_val(o.default), dict):
+                o.default = None
+        _run_spec_cache[key] = spec_of_cmdoptions(opts)
+    return _run_spec_cache[key]
+
+
+def _rr_mark(logfile, name, parent_pid, fail=False, marks=False):
+    """action of the probe tasks (module level: picklable for the process runner)"""
+    import threading
+    import time
+    here = 'serial'
+    if os.getpid() != parent_pid:
+        here = 'process'
+    elif threading.current_thread() is not threading.main_thread():
+        here = 'thread'
+    if fail and here != 'serial':
+        fail = False            # `continue` is only read off a serial run; a failure in a parallel run would make which
+                                # of the other tasks still start a matter of timing
+    fd = os.open(logfile, os.O_WRONLY | os.O_APPEND | os.O_CREAT)
+    os.write(fd, ('%s %s\n' % (name, here)).encode())
+    os.close(fd)
+    if marks:
+        sys.stdout.write('OUTMARK\n')
+        sys.stderr.write('ERRMARK\n')
+    return not fail
+
+
+def run_behaviour(vals):
+    """what `doit run t u a_fail z` must do for resolved option values"""
+    v = dict(vals)
+    verb = v.get('verbosity')
+    return {'continue': bool(v.get('continue')), 'single': bool(v.get('single')), 'always': bool(v.get('always')),
+            'verbosity': 1 if verb is None else verb,
+            'mode': 'serial' if not v.get('num_process') else v.get('par_type')}
+
+
+def impl_realrun(case, workdir):
+    """DoitMain.run(['run'] + options + ['t','u','a_fail','z']) on five probe tasks; the resolved values of
+    continue / single / always / verbosity / num_process / par_type are read off what the run does"""
+    from doit.doit_cmd import DoitMain
+    from doit.cmd_base import ModuleTaskLoader
+    log = os.path.join(workdir, 'rr.log')
+    pid = os.getpid()
+    # the harness worker is a daemonic pool process; doit's process runner must be allowed to start children
+    import multiprocessing
+    multiprocessing.current_process()._config['daemon'] = False
+
+    def mk(name, **kw):
+        extra = dict(kw)
+        marks = extra.pop('marks', False)
+        fail = extra.pop('fail', False)
+
+        def creator():
+            d = {'actions': [(_rr_mark, [log, name, pid, fail, marks])]}
+            d.update(extra)
+            return d
+        return creator
+
+    ns = {'task_d': mk('d'), 'task_t': mk('t', task_dep=['d'], marks=True), 'task_u': mk('u', uptodate=[True]),
+          'task_a_fail': mk('a_fail', fail=True), 'task_z': mk('z'),
+          'DOIT_CONFIG': dict([(k, v) for k, v in case['dodo']] + [('reporter', 'zero')])}
+    old = os.getcwd()
+    os.chdir(workdir)
+    err, out = io.StringIO(), io.StringIO()
+    try:
+        for f in os.listdir(workdir):
+            os.remove(os.path.join(workdir, f))
+        kw = {'config_filenames': ()}
+        mode = case.get('ini_mode', 'api')
+        if mode == 'file':
+            with open('doit.cfg', 'w') as f:
+                if case['glob']:
+                    f.write('[GLOBAL]\n' + ''.join('%s = %s\n' % (k, c['raw']) for k, c in case['glob']))
+                f.write('[run]\n' + ''.join('%s = %s\n' % (k, c['raw']) for k, c in case['ini']))
+            kw = {'config_filenames': ('doit.cfg',)}
+        elif mode == 'toml':
+            with open('pyproject.toml', 'w') as f:
+                f.write('[tool.doit]\n' + ''.join('%s = %s\n' % (k, _toml_value(c)) for k, c in case['glob']))
+                f.write('[tool.doit.commands.run]\n' + ''.join('%s = %s\n' % (k, _toml_value(c)) for k, c in case['ini']))
+            kw = {'config_filenames': ('pyproject.toml',)}
+        else:
+            kw['extra_config'] = {'run': cfg_py(case['ini']), 'GLOBAL': cfg_py(case['glob'])}
+        with environ(case['env']), contextlib.redirect_stderr(err), contextlib.redirect_stdout(out):
+            try:
+                code = DoitMain(task_loader=ModuleTaskLoader(ns), **kw).run(['run'] + list(case['argv']))
+            except BaseException as ex:  # noqa
+                return {'res': {'err': 'crash', 'exc': type(ex).__name__}}
+        lines = []
+        if os.path.exists(log):
+            with open(log) as f:
+                lines = [l.split() for l in f.read().split('\n') if l.strip()]
+    finally:
+        os.chdir(old)
+    text = err.getvalue()
+    ran = [l[0] for l in lines]
+    where = dict((l[0], l[1]) for l in lines)
+    if code == 3 and 't' not in ran:
+        if text.startswith('ERROR:') and 'Traceback' not in text:
+            return {'res': {'err': classify_error(text)}, 'exit': code}
+        return {'res': {'err': 'crash', 'exc': text.strip().split('\n')[-1][:80]}, 'exit': code}
+    if 't' not in ran:
+        return {'res': {'err': 'crash', 'exc': 'task t did not run (exit %s): %s' % (code, text.strip().split('\n')[-1][:60])},
+                'exit': code, 'ran': ran}
+    mode_seen = where['t']
+    beh = {'single': 'd' not in ran, 'always': 'u' in ran, 'mode': mode_seen,
+           'continue': ('z' in ran) if mode_seen == 'serial' else None,
+           # only a serial run shows it reliably: a process worker has its own streams, and with threads overlapping
+           # python-actions swap sys.stdout under each other (open finding of C17), output can escape the capture
+           'verbosity': None if mode_seen != 'serial' else
+           (2 if 'OUTMARK' in out.getvalue() else 1 if 'ERRMARK' in text else 0)}
+    return {'res': {'ok': {'behaviour': beh}}, 'exit': code, 'ran': ran}
